@@ -24,7 +24,7 @@ from ..drive import metagrammar as mg
 
 PID = "C24"
 TX_DEVS = ["TxNoRulesOk", "TxRrelRequired", "TxFlagOnlyM", "TxNoFixedName", "TxModifiersNotMixed",
-           "TxIdentIsID", "TxBuiltinPrefix"]
+           "TxIdentIsID", "TxBuiltinPrefix", "TxBuiltinBeforeDot", "TxRegexSplit"]
 
 
 def _open_findings():
@@ -72,7 +72,13 @@ def run(rep):
         "compound names (A.B, a-b) are never used as replacement tokens",
     ]
     # (M) + enumeration
-    res_emit, res_inv = mg.tlc_generate(rep.tier)
+    with ThreadPoolExecutor(max_workers=2) as ex:
+        f_ch = ex.submit(mg.tlc_chunks, rep.tier)
+        res_emit, res_inv = mg.tlc_generate(rep.tier)
+        res_ch = f_ch.result()
+    tlc.require_ok(res_ch, "MetaGrammarLex (chunk enumeration, lexical rule)")
+    rep.add_mc("MetaGrammarLex", res_ch, ["ReRuleSound", "FirstSlashCloses", "LexAgrees", "LexTotal"])
+    chunks = res_ch.results("CHUNK")
     tlc.require_ok(res_emit, "MC_MetaGrammar_Emit (enumeration, coverage)")
     tlc.require_ok(res_inv, "MC_MetaGrammar (invariants)")
     rep.add_mc("MC_MetaGrammar_Emit", res_emit, ["Collect", "EmitFinal", "CoverageComplete (postcondition)"])
@@ -85,11 +91,17 @@ def run(rep):
         tlc.require_ok(rd, "MC_MetaGrammar_Dir")
         rep.add_mc("MC_MetaGrammar_Dir", rd, ["DevDirection"])
         for d in TX_DEVS:      # the module is not vacuous: each clause breaks TxAgrees
+            if d == "TxRegexSplit":     # a lexical clause: visible on the raw chunks only
+                rv = mg.tlc_chunks(rep.tier, d)
+                if rv.violated != "LexAgrees":
+                    raise tlc.MachineryError(f"deviation {d} does not violate LexAgrees in the model ({rv.violated}, {rv.error})")
+                rep.note(f"Dev={{{d}}}: LexAgrees violated in the model, as it must be")
+                continue
             rv = mg.tlc_invariants(rep.tier, d)
             if rv.violated != "TxAgrees":
                 raise tlc.MachineryError(f"deviation {d} does not violate TxAgrees in the model ({rv.violated}, {rv.error})")
             rep.note(f"Dev={{{d}}}: TxAgrees violated in the model, as it must be")
-    cases, total_mut = mg.build_cases(base, rng, rep.tier, PID)
+    cases, total_mut = mg.build_cases(base, rng, rep.tier, PID, chunks=chunks)
     cases = mg.witness_cases(findings) + cases
     rep.bounds.update(budgets=mg.BUDGETS[rep.tier], generated=len(base), mutants_total=total_mut,
                       corpus=len(cases), by_seed={mg.SEED_NAMES.get(s, str(s)): sum(1 for b in base if b["seed"] == s)
@@ -138,7 +150,7 @@ def run(rep):
             if isinstance(v, tuple) and v[0] == "violation":
                 viols.insert(0, (s2, ob["shrunk"], oc["shrunk"], v[1] + " [shrunk]"))
     for c, o, r, why in viols:
-        rep.violation(dict(toks=c["toks"], text=c.get("text"), kind=c["kind"], observed=dict(compiler=o["lang"], textx_tx=o["tx"]),
+        rep.violation(dict(toks=c["toks"], text=c.get("text"), raws=c.get("raws"), shown=mg.text_of(c), kind=c["kind"], observed=dict(compiler=o["lang"], textx_tx=o["tx"]),
                            module=dict(l=r["l"], x=r["x"], by=sorted(r["by"]))), why)
     cov = mg.coverage_union(orc)
     rep.extra["production_coverage"] = dict(labels=len(cov), accepted_texts=sum(1 for r in orc.values() if r["l"]))
@@ -156,6 +168,8 @@ def replay(path):
     c = dict(id="replay", kind="replay", toks=case["toks"])
     if case.get("text") is not None:
         c["text"] = case["text"]
+    if case.get("raws"):
+        c["raws"] = case["raws"]
     findings = _open_findings()
     fid_of = {f["deviation"]: f["id"] for f in findings if f["deviation"] in TX_DEVS}
     o = mg.observe_one(c, ("lang", "tx"))
